@@ -327,6 +327,9 @@ class C16(Check):
                 if rng.random() < 0.5 or not v:
                     v.append({"op": "shuffle", "how": rng.choice(["reverse", "interleave"])})
                 case["variants"].append(v)
+            # one more run in which realtime and stored observations of the same sensor are stacked together, the stored ones taken from a position a
+            # few km away: every predicted measurement must come from its own observation's sensor position
+            case["mixed_sources"] = [rng.uniform(-3, 3) for _ in range(3)] if rng.random() < 0.5 else None
         return case
 
     def sample_view(self, case):
@@ -413,6 +416,21 @@ class C16(Check):
                     # depends on the row order - a different observation set, not a different order of the same set
                     has_dups = True
                 runs.append((muts, rec, len([o for o in info["observations"] if o[3] is not None]), upd))
+            if case.get("mixed_sources") and not viol:
+                wd = os.path.join(base_dir, "mixed")
+                os.makedirs(wd, exist_ok=True)
+                imp = os.path.join(wd, "importer.sqlite3")
+                importer.build(src, imp, [{"op": "shift_obs_sensor", "d": case["mixed_sources"]}])
+                c3 = dict(case)
+                c3["config"] = dict(case["config"])
+                c3["config"]["observation"] = dict(case["config"]["observation"], realtime_observation=True)
+                c3["_dir"] = wd
+                c3["importer_db_url"] = f"sqlite:///{imp}"
+                sched.observe(c3)
+                before = len(viol)
+                judge_updates(viol, cnt, res, ecef_at=self._ecef_ctx(case))
+                cnt["runs_stacking_realtime_and_stored_observations_of_one_sensor"] = 1
+                res["faults"]["importer_shift_obs_sensor"] = res["faults"].get("importer_shift_obs_sensor", 0) + 1
             base_rec = runs[0][1]
             mx = 0.0
             for muts, rec, n_ang, upd in runs[1:]:
